@@ -309,7 +309,7 @@ Fixpoint tevents (c : collector) (t : texp) (r : result) : list entry :=
   | XBody => []
   | XClosureCall e => tevents c e r
   | XAsyncAwait e => tevents c e r
-  | XLetRet e es => tevents c e r ++ match r with RVal v => ev_if c es false v | RPanic _ => [] end
+  | XLetRet e es => tevents c e r ++ match r with RVal v => ev_if c es false v | _ => [] end
   | XMatch e okev errev =>
       tevents c e r ++
       match r with
@@ -412,7 +412,7 @@ Proof.
   - (* XLetRet *)
     destruct (texec c args f e lv) as [[[l1 lv1] r1] t1] eqn:E1.
     destruct (IH _ _ _ _ _ _ _ _ E1 HB) as (Hr & Ho & Hp & Hi & He). subst r1.
-    destruct rb as [v|k]; inversion HT; subst; clear HT.
+    destruct rb as [v|k|]; inversion HT; subst; clear HT.
     + destruct (emit_facts c es false v) as (F1 & F2 & F3 & F4).
       repeat split; auto.
       * rewrite !own_effects_app, own_effects_xdrop, F1, !app_nil_r. reflexivity.
@@ -424,10 +424,15 @@ Proof.
       * rewrite !xdrops_app, xdrops_xdrop. simpl. rewrite <- app_assoc. exact Hp.
       * repeat (apply Forall_app; split); auto using inner_ok_xdrops.
       * simpl. rewrite !filter_app, filter_event_xdrops, !app_nil_r. exact He.
+    + repeat split; auto.
+      * rewrite !own_effects_app, own_effects_xdrop, !app_nil_r. reflexivity.
+      * rewrite !xdrops_app, xdrops_xdrop. simpl. rewrite <- app_assoc. exact Hp.
+      * repeat (apply Forall_app; split); auto using inner_ok_xdrops.
+      * simpl. rewrite !filter_app, filter_event_xdrops, !app_nil_r. exact He.
   - (* XMatch *)
     destruct (texec c args f e lv) as [[[l1 lv1] r1] t1] eqn:E1.
     destruct (IH _ _ _ _ _ _ _ _ E1 HB) as (Hr & Ho & Hp & Hi & He). subst r1.
-    destruct rb as [v|k]; [destruct v as [| n | p | x | x]|]; inversion HT; subst; clear HT;
+    destruct rb as [v|k|]; [destruct v as [| n | p | x | x]| |]; inversion HT; subst; clear HT;
       try (simpl tevents; rewrite ?app_nil_r; repeat split; auto; fail).
     + (* Ok *)
       simpl tevents. destruct okev as [es|].
